@@ -28,6 +28,33 @@ pub struct Case {
     /// configured credential id length (None = default 16)
     #[serde(default)]
     pub id_len: Option<u8>,
+    /// make-then-get: the 32-byte PRF salt(s) handed to getAssertion, hex
+    #[serde(default)]
+    pub salt: Option<String>,
+    #[serde(default)]
+    pub salt2: Option<String>,
+}
+
+/// Salts worth trying against a credential the library itself created: every string literal of
+/// the library sources (current working tree), hashed with SHA-256 and zero-padded to 32 bytes,
+/// plus a few structural values.  A derivation that relates the two PRF secrets, or a secret and a
+/// public value, through such a constant shows up as a secret in the output.
+pub fn dictionary_salts() -> Vec<[u8; 32]> {
+    use sha2::{Digest, Sha256};
+    let mut v: Vec<[u8; 32]> = vec![[0; 32], [0xff; 32], [9; 32]];
+    for l in crate::core::dict::source_literals(&["passkey-authenticator", "passkey-types", "passkey-client"], 64) {
+        v.push(Sha256::digest(&l).into());
+        if l.len() <= 32 {
+            let mut a = [0u8; 32];
+            a[..l.len()].copy_from_slice(&l);
+            v.push(a);
+        }
+        // the client's own salt derivation applied to the literal
+        v.push(Sha256::digest([&b"WebAuthn PRF\0"[..], &l[..]].concat()).into());
+    }
+    v.sort();
+    v.dedup();
+    v
 }
 
 pub const OPS: [&str; 8] = ["client-register", "client-authenticate", "ctap-make", "ctap-get", "u2f-register", "u2f-authenticate", "get-info", "error-paths"];
@@ -41,7 +68,7 @@ pub fn cases() -> Vec<Case> {
                     for verified in [false, true] {
                         for mode in MODES {
                             for counter in [false, true] {
-                                let c = Case { op: op.into(), hmac, hmac_mc, prf, verified, mode, counter, id_len: None };
+                                let c = Case { op: op.into(), hmac, hmac_mc, prf, verified, mode, counter, id_len: None, salt: None, salt2: None };
                                 let client = op.starts_with("client");
                                 if !client && mode != Mode::Default {
                                     continue;
@@ -63,7 +90,27 @@ pub fn cases() -> Vec<Case> {
             }
         }
     }
+    // a credential created by the library itself, then asserted with dictionary salts
+    let salts = dictionary_salts();
+    for (i, s) in salts.iter().enumerate() {
+        for hmac in 1..3u8 {
+            for hmac_mc in [false, true] {
+                for verified in [false, true] {
+                    let s2 = (i % 7 == 0).then(|| hex(&salts[(i + 1) % salts.len()]));
+                    v.push(Case { op: "make-then-get".into(), hmac, hmac_mc, prf: 1, verified, mode: Mode::Default, counter: true, id_len: None, salt: Some(hex(s)), salt2: s2 });
+                }
+            }
+        }
+    }
     v
+}
+
+fn unhex32(s: &str) -> [u8; 32] {
+    let mut a = [0u8; 32];
+    for (i, b) in a.iter_mut().enumerate() {
+        *b = u8::from_str_radix(s.get(2 * i..2 * i + 2).unwrap_or("00"), 16).unwrap_or(0);
+    }
+    a
 }
 
 /// All textual / binary spellings under which `secret` is searched.
@@ -168,6 +215,22 @@ fn outputs(c: &Case, store: &Shared<RefStore>) -> Result<Vec<(String, Vec<u8>)>,
             match block_on(auth.get_assertion(ga_request("example.com", None, false, true, c.verified, false, ext))) {
                 Ok(r) => push("get_assertion::Response", format!("{r:?}"), format!("{r:#?}"), vec![("cbor", cbor(&r)), ("auth-data", r.auth_data.to_vec()), ("signature", r.signature.to_vec())]),
                 Err(e) => push("StatusCode", format!("{e:?}"), format!("{e:#?}"), vec![]),
+            }
+        }
+        "make-then-get" => {
+            let mut auth = mk_auth(store.clone(), uv.clone(), &cfg);
+            let first = unhex32(c.salt.as_deref().unwrap_or(""));
+            let second = c.salt2.as_deref().map(unhex32);
+            let vals = AuthenticatorPrfValues { first, second };
+            let mext = make_credential::ExtensionInputs { hmac_secret: Some(true), hmac_secret_mc: None, prf: Some(AuthenticatorPrfInputs { eval: Some(vals.clone()), eval_by_credential: None }) };
+            match block_on(auth.make_credential(mc_request("fresh.example", &[6], None, true, true, c.verified, false, Some(mext)))) {
+                Ok(r) => push("make_credential::Response", format!("{r:?}"), format!("{r:#?}"), vec![("cbor", cbor(&r)), ("auth-data", r.auth_data.to_vec())]),
+                Err(e) => push("StatusCode", format!("{e:?}"), format!("{e:#?}"), vec![]),
+            }
+            let gext = get_assertion::ExtensionInputs { hmac_secret: None, prf: Some(AuthenticatorPrfInputs { eval: Some(vals), eval_by_credential: None }) };
+            match block_on(auth.get_assertion(ga_request("fresh.example", None, false, true, c.verified, false, Some(gext)))) {
+                Ok(r) => push("get_assertion::Response", format!("{r:?}"), format!("{r:#?}"), vec![("cbor", cbor(&r)), ("auth-data", r.auth_data.to_vec()), ("signature", r.signature.to_vec())]),
+                Err(e) => push("get:StatusCode", format!("{e:?}"), format!("{e:#?}"), vec![]),
             }
         }
         "u2f-register" => {
